@@ -425,6 +425,11 @@ pub fn run_batch(engine: &dyn Engine, cfg: &BatchCfg) -> BatchResult {
     }
   }
   unknown.sort_by(|a, b| a.0.cmp(&b.0));
+  if std::env::var("VERIF_DEBUG_GROUPS").is_ok() {
+    for (idx, v, count) in &unknown {
+      eprintln!("DEBUG unknown group run={idx} count={count} invariant={} signature={}", v.invariant, v.signature);
+    }
+  }
   let mut reported: BTreeSet<(String, String)> = BTreeSet::new();
   // Report at most 5 distinct unknown violation groups.
   for (idx, v, count) in unknown.iter().take(5) {
